@@ -5,6 +5,7 @@ import time
 import numpy as np
 
 from . import catalog as K
+from .C15 import *          # noqa: F401,F403  (shared scenarios name their oracles there)
 from .C12 import *          # noqa: F401,F403  (scenarios shared with C12 name their oracles there)
 from .C13 import *          # noqa: F401,F403
 
